@@ -441,7 +441,12 @@ class ConfigLoader(BaseLoader):
             ZConfig.schema.parseComponent(resource, self._loader, schema)
 
     def includeConfiguration(self, section, url, defines):
-        url = self.normalizeURL(url)
+        try:
+            url = self.normalizeURL(url)
+        except ValueError as e:
+            # e.g. 'Invalid IPv6 URL' when the fragment is split off
+            raise ZConfig.ConfigurationError(
+                f"invalid URL in %include: {e}", url)
         if url in self._including:
             raise ZConfig.ConfigurationError(
                 "recursive inclusion of " + url, url)
